@@ -8,7 +8,14 @@
 //! * a *recording serializer* (`Rec`) turns each value into the serde-data-model tree the real
 //!   `Serialize` impl emits; the Lean driver re-encodes that tree with its postcard and bincode models
 //!   and must reproduce the real crates' bytes;
-//! * oracle (implementation only): `from(to(x)) == x` and `to(from(to(x))) == to(x)` for the three formats.
+//! * oracle (implementation only): `from(to(x)) == x` and `to(from(to(x))) == to(x)` for the three formats;
+//! * each `tree` request carries the type name and the real crates' bytes: the driver checks that the recorded
+//!   tree has the shape GENERATED for that type from the Rust sources (tools/gen/serde_shapes.py), and runs the
+//!   model DECODERS on the real bytes (must give back exactly the recorded tree);
+//! * `de <Type> <pc|bc> <hex>`: the real decoders are fed the valid encoding and crafted malformed variants of
+//!   it (truncations, bad variant index / option tag / bool, over-long varints, huge lengths, trailing
+//!   bytes); they must accept exactly when the model decoder (generated shape) accepts, consume the same
+//!   number of bytes, and the accepted value must re-serialise to the tree the model decoded.
 use crate::{ctx::{Ctx, Rng}, util::hex};
 use fuel_tx::{policies::{Policies, PolicyType}, ConsensusParameters, GasCosts, Receipt, Transaction};
 use serde::{de, de::IntoDeserializer, ser, Deserialize, Serialize};
@@ -162,10 +169,116 @@ where T: Serialize + for<'de> Deserialize<'de> + PartialEq + std::fmt::Debug {
             for (fp, d) in fails { ctx.oracle_fail(&format!("{ty}-{fp}"), &format!("tree {tree}"), &d); }
             ctx.count(ty);
             ctx.distinct(tree.as_bytes());
-            ctx.emit(&format!("tree {tree}"), &format!("{} {}", hex(&pc), hex(&bc)));
+            ctx.emit(&format!("tree {ty} {tree} {} {}", hex(&pc), hex(&bc)), "ok");
+            if ctx.rng.below(de_every(ty)) == 0 {
+                for (fmt, b) in [("pc", &pc), ("bc", &bc)] {
+                    de_probe::<T>(ctx, ty, fmt, b);   // the valid encoding itself (= the model's re-encoding)
+                    for _ in 0..5 { let m = mutate(&mut ctx.rng, b, fmt, top_variants(ty)); de_probe::<T>(ctx, ty, fmt, &m); }
+                }
+            }
         }
         Err(p) => ctx.oracle_fail(&format!("{ty}-panic"), &format!("tree {tree}"), &p),
     }
+}
+
+
+// ---------------------------------------------------------------- malformed inputs for the real decoders
+fn de_every(ty: &str) -> u64 { match ty { "Policies" => 1, "Transaction" => 5, "Receipt" => 3, "ConsensusParameters" | "GasCosts" => 4, _ => 2 } }
+fn top_variants(ty: &str) -> Option<u32> { match ty { "Transaction" => Some(6), "Receipt" => Some(13), "Input" => Some(7), "Output" => Some(5), "ConsensusParameters" => Some(2), "GasCosts" => Some(7), _ => None } }
+
+/// one crafted variant of a valid encoding
+fn mutate(rng: &mut Rng, b: &[u8], fmt: &str, nvar: Option<u32>) -> Vec<u8> {
+    let mut m = b.to_vec();
+    let len = m.len().max(1) as u64;
+    let pos = rng.below(len) as usize;
+    match rng.below(11) {
+        0 => { m.truncate(pos); }                                                                   // truncation anywhere
+        1 => { m.pop(); }                                                                           // last byte missing
+        2 => { if let Some(x) = m.get_mut(pos) { *x = *rng.pick(&[0u8, 1, 2, 0x7f, 0x80, 0xff]); } }  // bad tag / bool / index / length
+        3 => { m.insert(pos.min(m.len()), if fmt == "pc" { 0x80 } else { rng.next() as u8 }); }     // shifted / over-long varint
+        4 => { if let Some(x) = m.get_mut(pos) { if *x < 0x80 { *x |= 0x80; m.insert(pos + 1, 0); } } } // non-canonical varint of the same value
+        5 => { let k = rng.range(1, 10) as usize; for _ in 0..k { m.insert(pos.min(m.len()), 0x80); } } // varint longer than any width allows
+        6 => { if fmt == "pc" { let big = [0xffu8, 0xff, 0xff, 0xff, 0xff, 0xff, 0xff, 0xff, 0xff, 0x01]; for (i, x) in big.iter().enumerate() { m.insert((pos + i).min(m.len()), *x); } }
+               else { for i in 0..8 { if let Some(x) = m.get_mut(pos + i) { *x = 0xff; } } } }      // huge length / value
+        7 => { let k = rng.range(1, 3) as usize; m.extend(rng.bytes(k)); }                          // trailing bytes
+        8 => { if let Some(n) = nvar {                                                              // variant index out of range
+                   if fmt == "pc" { let alt: &[&[u8]] = &[&[n as u8], &[0x7f], &[0xff, 0xff, 0xff, 0xff, 0x0f], &[0xff, 0xff, 0xff, 0xff, 0x1f], &[0x80, 0x80, 0x80, 0x80, 0x80, 0x00]];
+                       let a = *rng.pick(alt); m.splice(0..1.min(m.len()), a.iter().copied()); }
+                   else { let v: u32 = *rng.pick(&[n, n + 1, 0x100, u32::MAX]); for (i, x) in v.to_le_bytes().iter().enumerate() { if let Some(y) = m.get_mut(i) { *y = *x; } } } }
+               else if let Some(x) = m.get_mut(0) { *x = rng.next() as u8; } }
+        9 => { if let Some(x) = m.get_mut(pos) { *x = rng.next() as u8; } }                         // random byte
+        _ => { let k = rng.below(4) as usize; m.truncate(k); }                                      // almost empty
+    }
+    m
+}
+
+/// real decoder on arbitrary bytes: `ok <unconsumed> <tree of the decoded value>` | `err`
+fn de_probe<T>(ctx: &mut Ctx, ty: &str, fmt: &str, b: &[u8])
+where T: Serialize + for<'de> Deserialize<'de> + PartialEq + std::fmt::Debug {
+    let op = format!("de {ty} {fmt} {}", hex(b));
+    let r = ctx.guard(|| -> Result<Option<(String, usize)>, (&'static str, String)> {
+        if fmt == "pc" {
+            let full = postcard::from_bytes::<T>(b);
+            let take = postcard::take_from_bytes::<T>(b);
+            match (full, take) {
+                (Ok(v), Ok((w, rest))) => {
+                    if v != w { return Err(("postcard-from-bytes-vs-take-differ", String::new())); }
+                    // accepted values are fixed points of encode/decode
+                    let again = postcard::to_allocvec(&v).map_err(|e| ("postcard-reencode-of-accepted-fails", e.to_string()))?;
+                    match postcard::from_bytes::<T>(&again) { Ok(y) if y == v => {}, _ => return Err(("postcard-accepted-value-not-fixed-point", String::new())) }
+                    let t = v.serialize(Rec).map_err(|e| ("unrecordable", e.0))?;
+                    Ok(Some((t, rest.len())))
+                }
+                (Err(_), Err(_)) => Ok(None),
+                // take_from_bytes additionally runs `finalize`, which cannot fail for a slice
+                _ => Err(("postcard-from-bytes-vs-take-differ", String::new())),
+            }
+        } else {
+            match bincode::deserialize::<T>(b) {
+                Ok(v) => {
+                    // bincode (fixint) is canonical: the accepted value re-encodes to the consumed prefix
+                    let again = bincode::serialize(&v).map_err(|e| ("bincode-reencode-of-accepted-fails", e.to_string()))?;
+                    if again.len() > b.len() || again[..] != b[..again.len()] { return Err(("bincode-accepted-value-reencodes-differently", hex(&again))); }
+                    let t = v.serialize(Rec).map_err(|e| ("unrecordable", e.0))?;
+                    Ok(Some((t, b.len() - again.len())))
+                }
+                Err(_) => Ok(None),
+            }
+        }
+    });
+    let out = match r {
+        Ok(Ok(Some((t, rest)))) => { ctx.count(&format!("de.{ty}.{fmt}.ok")); if rest > 0 { ctx.count(&format!("de.{fmt}.ok-with-rest")); } format!("ok {rest} {t}") }
+        Ok(Ok(None)) => { ctx.count(&format!("de.{ty}.{fmt}.err")); "err".to_string() }
+        Ok(Err((fp, d))) => { ctx.oracle_fail(&format!("{ty}-{fp}"), &op, &d); "oracle".to_string() }
+        Err(p) => { ctx.oracle_fail(&format!("{ty}-decode-panic"), &op, &p); "panic".to_string() }
+    };
+    ctx.emit(&op, &out);
+}
+
+fn corpus(ctx: &mut Ctx) {
+    use crate::util::unhex;
+    // minimized boundary cases (literals): variant index just out of range, option tag 2, bool 2, u64 varint at the
+    // 10-byte limit (accepted) and one past it (rejected), over-long u16 varint, huge byte-string length, Policies with
+    // a values count that does not match the bits (legacy / compact), unknown high bits in PoliciesBits.
+    let out = |c: &mut Ctx, f: &str, h: &str| de_probe::<fuel_tx::Output>(c, "Output", f, &unhex(h));
+    out(ctx, "pc", "05"); out(ctx, "pc", "04"); out(ctx, "bc", "05000000"); out(ctx, "bc", "04000000"); out(ctx, "pc", "-"); out(ctx, "bc", "040000");
+    let rc = |c: &mut Ctx, f: &str, h: &str| de_probe::<Receipt>(c, "Receipt", f, &unhex(h));
+    rc(ctx, "pc", "090000"); rc(ctx, "pc", "0903ffffffffffffffffff0100"); rc(ctx, "pc", "0903ffffffffffffffffff0200");
+    rc(ctx, "pc", "09038080808080808080800000"); rc(ctx, "pc", "090400"); rc(ctx, "pc", "0d"); rc(ctx, "pc", "8900"); rc(ctx, "pc", "09800000");
+    rc(ctx, "bc", "09000000000000000000000000000000"); rc(ctx, "bc", "0900000003000000ffffffffffffffff0100000000000000"); rc(ctx, "bc", "0d000000");
+    let mut ret = vec![2u8]; ret.extend([7u8; 32]); ret.extend([1, 2]); ret.extend([9u8; 32]); ret.extend([3, 4]);
+    for tail in [&[0u8][..], &[1, 0], &[1, 2, 0xaa, 0xbb], &[2], &[1, 0xff, 0xff, 0xff, 0xff, 0xff, 0xff, 0xff, 0xff, 0xff, 0x01], &[1, 3, 0xaa], &[]] {
+        let mut b = ret.clone(); b.extend(tail); de_probe::<Receipt>(ctx, "Receipt", "pc", &b);
+    }
+    let po = |c: &mut Ctx, f: &str, h: &str| de_probe::<Policies>(c, "Policies", f, &unhex(h));
+    po(ctx, "pc", "0000000000"); po(ctx, "pc", "00000000"); po(ctx, "pc", "1000"); po(ctx, "pc", "100107"); po(ctx, "pc", "10020708"); po(ctx, "pc", "3f06010203040506");
+    po(ctx, "pc", "3f050102030405"); po(ctx, "pc", "c00000000000"); po(ctx, "pc", "d0000107"); po(ctx, "pc", "ffffffff0f06010203040506"); po(ctx, "pc", "ffffffff1f06010203040506");
+    po(ctx, "bc", "00000000"); po(ctx, "bc", &format!("0f000000{}", "00".repeat(32))); po(ctx, "bc", &format!("10000000{}{}", "0100000000000000", "0700000000000000"));
+    po(ctx, "bc", &format!("10000000{}", "0000000000000000")); po(ctx, "bc", &format!("10000000{}", "ffffffffffffffff")); po(ctx, "bc", &format!("000001000000000000000000{}", "00".repeat(28)));
+    let tx = |c: &mut Ctx, f: &str, h: &str| de_probe::<Transaction>(c, "Transaction", f, &unhex(h));
+    tx(ctx, "pc", "06"); tx(ctx, "pc", "02"); tx(ctx, "bc", "06000000");
+    let cp = |c: &mut Ctx, f: &str, h: &str| de_probe::<ConsensusParameters>(c, "ConsensusParameters", f, &unhex(h));
+    cp(ctx, "pc", "02"); cp(ctx, "pc", "0000"); cp(ctx, "bc", "0200000000");
 }
 
 fn policies_from(bits: u32, vals: &[u64; 6]) -> Policies {
@@ -177,6 +290,7 @@ fn policies_from(bits: u32, vals: &[u64; 6]) -> Policies {
 fn varint(mut n: u64, out: &mut Vec<u8>) { loop { if n < 128 { out.push(n as u8); return; } out.push((n % 128) as u8 | 0x80); n /= 128; } }
 
 pub fn run(ctx: &mut Ctx) {
+    corpus(ctx);
     // 1. Policies: every mask x boundary values through the public API; tree must equal the model's `ser`
     for bits in 0u32..64 {
         for k in 0..ctx.n(6, 40) {
